@@ -89,34 +89,24 @@ pub fn step<'a>(term: &Term<'a>) -> Option<Term<'a>> {
             }
         }
         Let(definitions, body) => {
-            // If there are definitions, step the first one and substitute it into the subsequent
-            // definitions and body. Otherwise, just return the body.
-            if let Some((variable, annotation, definition)) = definitions.first() {
-                // Compute this once rather than multiple times.
-                let index = definitions.len() - 1;
+            // If there are no definitions, just return the body.
+            if definitions.is_empty() {
+                return Some((**body).clone());
+            }
+
+            // Definitions which are already values are available to all the other definitions in
+            // the group, regardless of the order in which they were written. So if there is such
+            // a definition, unfold it and substitute it into the other definitions and the body.
+            // Otherwise, step the first definition.
+            let position = definitions
+                .iter()
+                .position(|(_, _, definition)| is_value(definition));
+
+            if let Some(position) = position {
+                // Compute these once rather than multiple times.
+                let (variable, annotation, definition) = &definitions[position];
+                let index = definitions.len() - 1 - position;
                 let index_plus_one = index + 1;
-
-                // Try to step the definition.
-                if let Some(stepped_definition) = step(definition) {
-                    return Some(Term {
-                        source_range: None,
-                        variant: Let(
-                            once((*variable, annotation.clone(), Rc::new(stepped_definition)))
-                                .chain(definitions.iter().skip(1).map(
-                                    |(variable, annotation, definition)| {
-                                        (*variable, annotation.clone(), definition.clone())
-                                    },
-                                ))
-                                .collect(),
-                            body.clone(),
-                        ),
-                    });
-                }
-
-                // Ensure the definition is a value.
-                if !is_value(definition) {
-                    return None;
-                }
 
                 // Compute this once rather than multiple times.
                 let body_for_unfolding = Rc::new(Term {
@@ -152,11 +142,12 @@ pub fn step<'a>(term: &Term<'a>) -> Option<Term<'a>> {
                     0,
                 );
 
-                // Substitute the unfolded definition in subsequent annotations and definitions.
+                // Substitute the unfolded definition in the other annotations and definitions.
                 let substituted_definitions = definitions
                     .iter()
-                    .skip(1)
-                    .map(|(variable, annotation, definition)| {
+                    .enumerate()
+                    .filter(|(i, _)| *i != position)
+                    .map(|(_, (variable, annotation, definition))| {
                         (
                             *variable,
                             Rc::new(open(annotation, index, &unfolded_definition, 0)),
@@ -174,8 +165,23 @@ pub fn step<'a>(term: &Term<'a>) -> Option<Term<'a>> {
                     variant: Let(substituted_definitions, Rc::new(substituted_body)),
                 })
             } else {
-                // There are no definitions. Return the body.
-                Some((**body).clone())
+                // None of the definitions are values yet. Try to step the first one. If it can't
+                // be stepped, we're stuck.
+                let (variable, annotation, definition) = &definitions[0];
+
+                step(definition).map(|stepped_definition| Term {
+                    source_range: None,
+                    variant: Let(
+                        once((*variable, annotation.clone(), Rc::new(stepped_definition)))
+                            .chain(definitions.iter().skip(1).map(
+                                |(variable, annotation, definition)| {
+                                    (*variable, annotation.clone(), definition.clone())
+                                },
+                            ))
+                            .collect(),
+                        body.clone(),
+                    ),
+                })
             }
         }
         Negation(subterm) => {
